@@ -22,7 +22,8 @@ def resolveLabel (_st : Static) (defs : Defs) (ctx : RCtx) (ref : Nat) : ItemRes
   | .ok a =>
     let s := defs.sym ref
     let nv : Value := .int ⟨a, none⟩
-    let defs' := defs.setSym ref { s with value := nv, bank := some ctx.bank }
+    -- (`symbol.bankdef_ref` is only read by the Mesen symbol format; the listing model takes it from the run)
+    let defs' := defs.setSym ref { s with value := nv }
     let same := match s.value with
       | .int x => x.v == a
       | _ => false
@@ -895,6 +896,16 @@ def Defs.withDump (d : Defs) (s : StateDump) : Defs :=
 def StateDump.same (a b : StateDump) : Bool :=
   a.symbols == b.symbols && a.instrs == b.instrs && a.datas == b.datas && a.res == b.res && a.aligns == b.aligns && a.addrs == b.addrs
 
+/-- symbol slots of the label nodes / of the constant nodes -/
+def labelRefs (nodes : List AstNode) : List Nat :=
+  nodes.filterMap fun n => match n with | .symbol _ _ .label _ (some r) => some r | _ => none
+def constRefs (nodes : List AstNode) : List Nat :=
+  nodes.filterMap fun n => match n with | .symbol _ _ (.constant _) _ (some r) => some r | _ => none
+
+/-- no constant node shares its symbol slot with a label node (every declaration gets a fresh
+    slot; the hypothesis of `Casm.resolveIterativelyN_fixed_point`, validated on every certificate run) -/
+def refsWF (nodes : List AstNode) : Bool := (constRefs nodes).all fun r => !(labelRefs nodes).contains r
+
 /-- **Fixed-point certificate** (C02): a claimed final state is re-checked by one strict
     (guessing forbidden), non-first pass; it must be accepted, stable, silent and unchanged. -/
 def certify (opts : Opts) (fs : SrcFiles) (roots : List (List Char)) (claimed : StateDump) : Except String Unit :=
@@ -902,6 +913,7 @@ def certify (opts : Opts) (fs : SrcFiles) (roots : List (List Char)) (claimed : 
   | .error e => .error ("front end: " ++ e.headD "?")
   | .ok (st, nodes, defs) =>
     let d := defs.withDump claimed
+    if !refsWF nodes then .error "model: a constant and a label share a symbol slot" else
     match resolveOnce st nodes false true d with
     | .error (m, _) => .error ("strict pass fails: " ++ m)
     | .ok (d', stable, rep) =>
